@@ -5,7 +5,7 @@ Not decided: wrap-around at the top of the 32-bit address space; callbacks."""
 from .. import cast, sym, lin
 from ..sym import C, fmt, linearize as L
 from ..lin import Lin
-from .regs import Regs, T, strip_cast, size_facts, scan_rule, for_headers, wrap_free
+from .regs import Regs, T, strip_cast, size_facts, scan_rule, for_headers, wrap_free, config_bits_fixture
 from .c02 import walker, WalkAccount, code_of, addr_of, ADDR, N, BUF, loop_const_invariant
 
 
@@ -413,6 +413,10 @@ def run(ck):
     rule_c(ck, R)
     rule_d(ck, R)
     wrap_free(R, 'C03.e', 'register_foreach_in')
+    ck.rule('C03.g', 'an area stays readable / not readable as configured: no store into RegisterArea.flags changes REG_AF_READABLE (words of areas that are not readable read as zero - for as long as the library itself does not flip the bit)')
+    from .regs import config_bits_rule
+    config_bits_rule(R, 'C03.g', ('REG_AF_READABLE',), 'a block read of an area configured write-only hands out its content from then on (or a readable area reads as zeroes)')
+    config_bits_fixture(R, 'C03.g')
     from .common import reevaluate
     reevaluate(ck, 'C03.f', 'c04', lambda r, k: r == 'C04.e',
                'range iteration starts its search at the first register recorded for the area that contains the start address')
